@@ -2,7 +2,7 @@
     as the code runs them: [load_parameters] assigns the parameters with State.__setitem__, resets the population variables
     with [put_population_cached] (the prior's parameters are READ, which fills the cache, then the assignment is made on the
     State object left by those reads), then READS every other name of the dictionary (e.g. [mixing_matrix], [v0]) to compare
-    it — one more cache-filling read each.  Definitions only; proofs: Compose/StateHistoryProofs.v. *)
+    it — one more cache-filling read each; an observer (to_dict / save / [parameters]) is a list of such reads.  Definitions only; proofs: Compose/StateHistoryProofs.v. *)
 From Coq Require Import List String Bool.
 From Leaspy Require Import State.StateModel State.StateProofs State.StateNow Io.EndOfFit Io.History Compose.StateEndOfFit.
 Import ListNotations.
@@ -29,6 +29,7 @@ Definition run_event_cached (pops : list string) (s : gstate V g) (e : event (op
   match e with
   | EvLoad a cmp => Some (load_parameters_cached pops a cmp s)
   | EvFit body => Some (end_of_fit_cached V g wf names stat prior_params pops (body s))
+  | EvRead cmp => Some (fold_left (s_touch V g wf names) cmp s)
   end.
 
 Definition run_history_cached (pops : list string) : list (event (option V) (gstate V g)) -> gstate V g -> option (gstate V g) :=
